@@ -10,9 +10,12 @@ Open Scope Z_scope.
 
 (* The limit the scheduler computes is accepted only if it equals the
    specification for the current pool (with an empty pool any value is
-   accepted: nothing can be released). *)
+   accepted: nothing can be released) -- or, faithfully to the code's early
+   return (FINDING, see c04_limit_always_spec_refuted), if the previous limit
+   already sits at the stop point and is simply kept. *)
 Theorem c04_limit_is_spec : forall c s l s',
-  step c s (ELimit l) = Ok s' -> pool s <> [] -> l = spec_limit c s /\ limit s' = l.
+  step c s (ELimit l) = Ok s' -> pool s <> [] ->
+  (l = spec_limit c s \/ (limit s = Some (stop_point s) /\ l = limit s)) /\ limit s' = l.
 Proof. exact limit_is_spec. Qed.
 
 (* A task leaves the runahead pool only if its point is within the limit last
@@ -54,3 +57,31 @@ Example c04_ex_spec :
     {| pool := [new_task (2, 0%nat) [1%nat] [] false; new_task (3, 0%nat) [1%nat] [] false]; limbo := []; hist := [];
        subs := []; limit := None; relq := []; abs_done := []; stop_point := 6; done := []; to_hold := []; hold_pt := None; saved := []; stop_mode := None; stop_task := None; crash_mode := false |} = Some 4.
 Proof. vm_compute. reflexivity. Qed.
+
+(* FINDING (known, open): the full statement "the limit always equals the
+   specification for the current pool" is false of the code, hence of the
+   faithful automaton: compute_runahead returns early when the limit already
+   equals the stop point, even if the earliest pool point has moved back since
+   (which needs a manual trigger / set of an instance in an earlier cycle). *)
+Definition c04_limit_always_spec_statement : Prop :=
+  forall c tr s l s', exec c (init_state c) tr = Some s ->
+    step c s (ELimit l) = Ok s' -> pool s <> [] -> l = spec_limit c s.
+
+Definition c04_cfg : cfg :=
+  {| c_insts := [ {| i_id := (1, 0%nat); i_pre := []; i_comp := CAtom 4%nat; i_queue := 0%nat; i_tries := 1%nat |};
+                  {| i_id := (3, 0%nat); i_pre := []; i_comp := CAtom 4%nat; i_queue := 0%nat; i_tries := 1%nat |} ];
+     c_points := [1; 2; 3]; c_runahead := 0%nat; c_qlimits := [0%nat]; c_icp := 1; c_fcp := 3; c_start := 1 |}.
+Definition c04_witness : list event :=
+  [ ESpawn (3, 0%nat) [1%nat] [] false; EAdd (3, 0%nat); ELimit (Some 3);
+    ESpawn (1, 0%nat) [1%nat] [] false; EAdd (1, 0%nat) ].
+
+Theorem c04_limit_always_spec_refuted : ~ c04_limit_always_spec_statement.
+Proof.
+  intros H.
+  assert (Hr : run c04_cfg c04_witness = None) by (vm_compute; reflexivity).
+  apply run_accepts in Hr. destruct Hr as [s Hs].
+  assert (Hstep : exists s', step c04_cfg s (ELimit (Some 3)) = Ok s' /\ pool s <> [] /\ spec_limit c04_cfg s = Some 1).
+  { revert Hs. vm_compute. intros [= <-]. eexists. split; [reflexivity|]. split; [discriminate|reflexivity]. }
+  destruct Hstep as [s' [H1 [H2 H3]]].
+  specialize (H c04_cfg c04_witness s (Some 3) s' Hs H1 H2). rewrite H3 in H. discriminate.
+Qed.
